@@ -110,7 +110,16 @@ pub fn run(ctx: &mut Ctx) {
         for j in &gr { d.push(format!("D addr {} {}", j, to_hex(&recovery[*j]))); }
         d.push("D decode".into());
         dcases.push(d);
-        dmeta.push((originals.clone(), go));
+        dmeta.push((originals.clone(), go.clone()));
+        // the one-shot decode function is the same default codec: same shards, same result
+        if !gr.is_empty() {
+            let mut x = Case::new("oneshot-decodes-dedicated");
+            x.with_model = case.with_model;
+            let show = |idx: &Vec<usize>, src: &Vec<Vec<u8>>| if idx.is_empty() { "-".to_string() } else { idx.iter().map(|i| format!("{}:{}", i, to_hex(&src[*i]))).collect::<Vec<_>>().join(",") };
+            x.push(format!("X decode {} {} {} {}", k, r, show(&go, originals), show(&gr, &recovery)));
+            dcases.push(x);
+            dmeta.push((originals.clone(), go));
+        }
     }
     let druns = ctx.run_cases(&dcases);
     for ((case, run), (originals, go)) in dcases.iter().zip(druns.iter()).zip(dmeta.iter()) {
